@@ -77,6 +77,13 @@ def Covers (grid : List (Nat × Nat)) (n : Nat) : Prop :=
 def stdGrid (n c : Nat) : List (Nat × Nat) :=
   (List.range ((n + c - 1) / c)).map fun k => (k * c, min ((k + 1) * c) n)
 
+/-- copying a contiguous dataset in slabs of `s` rows is the chunk loop over `stdGrid n s` -/
+def slabGrid (n s : Nat) : List (Nat × Nat) := stdGrid n s
+
+/-- the slab rule "`k` slabs of `n / k` rows" (floor division) -/
+def floorSlabs (n k : Nat) : List (Nat × Nat) :=
+  (List.range k).map fun i => (i * (n / k), (i + 1) * (n / k))
+
 /-- attributes are written key by key -/
 def copyAttrs (a : Attrs) : Attrs := a.foldl (fun acc kv => acc ++ [kv]) []
 
